@@ -18,7 +18,8 @@ impl Transform for Slice {
             to = str.len();
         }
 
-        str[from..to].to_string()
+        // `from > to` or an offset inside a multi-byte character yields an empty result
+        str.get(from..to).unwrap_or_default().to_string()
     }
 }
 
